@@ -170,6 +170,7 @@ h("cont.H_OptionalFault", map[string]int{"rounds": 3, "order_schemes": 1}, map[s
 			h("cont.H_Misuse", map[string]int{"order_schemes": 1}, map[string]int{"order_schemes": 2}, []string{"called"}, 30, "a table of 34 API calls with nil / zero / unregistered / mismatched / invalid arguments on a collection, an open provider+scope, and a closed provider+scope (call and state symbolic); no panic, the documented sentinel or typed error through errors.Is/As, collection still buildable after a rejected Add"),
 			h("cont.H_Faults", map[string]int{"order_schemes": 1}, map[string]int{"order_schemes": 2}, []string{"built", "build_failed", "resolution_failed"}, 30, "dependency chain 0->1->2 with symbolic lifetimes, registered directly or through nested modules; one constructor - of shape (T, error), (T, A, error) or (result object, error) - fails once (error, wrapped error or panic) at a symbolic invocation during Build or a resolution; error class and cause through BuildError / ResolutionError / ConstructorInvocationError / ModuleError, no caching of the failure, retry re-invokes and yields a fully wired value, everything constructed on the way closed exactly once"),
 			h("cont.H_Dispose", dsp(0, 2, 3, 0, 1, 1, 0), dsp(0, 2, 3, 1, 1, 1, 0), append([]string{"build_failed"}, dspCov...), 0, dspDesc),
+			h("cont.H_TypedErrors", map[string]int{"order_schemes": 1}, map[string]int{"order_schemes": 2}, []string{"build_failed", "resolution_failed", "resolved"}, 20, "a constructor whose LAST result is declared with a concrete pointer type implementing error, a struct type with a value-receiver Error method (cannot be nil), or a custom interface embedding error; lifetime symbolic; one invocation (symbolic, or none) fails: no call panics, the failure is an error from which the constructor's own error is reachable with errors.As (BuildError for singletons), nothing is cached, the retry invokes the constructor again and yields a value, a success is reported as a success"),
 		}, Own: []string{"C15.", "C10.leaked", "C10.closed_twice", "C10.failed_build_leak", "C10.failed_scope_leak"}},
 	)
 	properties = append(properties,
@@ -242,6 +243,13 @@ h("cont.H_OptionalFault", map[string]int{"rounds": 3, "order_schemes": 1}, map[s
 			h("cont.H_Dispose", with(dsp(0, 2, 4, 0, 1, 0, 1), "tree", 1), with(dsp(0, 2, 4, 1, 2, 0, 1), "tree", 1), dspCov, 0, dspDesc),
 		}},
 	)
+	hchurn := h("cont.H_ScopeChurn", map[string]int{"L": 6, "order_schemes": 2}, map[string]int{"L": 8, "order_schemes": 4}, []string{"close_child", "open_children_at_close", "closed"}, 20, "the children of one scope (hanging off the provider or off another scope) come and go: a symbolic history of L operations {create a child and resolve a disposable scoped service in it, close the j-th child created so far}, then the scope, its outer scope or the provider is closed; after every child Close the siblings are untouched and keep working; the final Close reaches every child still open exactly once, descendants' instances before the scope's own, closed children are not closed again, every child reports disposed afterwards")
+	for i := range properties {
+		switch properties[i].ID {
+		case "C10", "C11", "C13":
+			properties[i].Harnesses = append(properties[i].Harnesses, hchurn)
+		}
+	}
 	sibDesc := "one identity that a multi-return constructor ALSO produces has a registration of its own, with its own lifetime - because that output was removed and registered again (Add(pair), Remove(*B), Add(newB)), or because the pair lives under a name next to an unnamed registration (Add(pair, Name(x)), Add(newA)); lifetimes of both symbolic; L symbolic resolutions over the provider and two scopes mixing requests for the pair's outputs and for the independent identity, then a sweep: every value comes from the constructor registered for its identity and follows that registration's lifetime rule (instances, constructor invocation counts), whatever the other constructor did in that scope before"
 	hsib := h("cont.H_ReplacedSibling", map[string]int{"L": 2, "order_schemes": 1}, map[string]int{"L": 4, "order_schemes": 2}, []string{"built", "history_done"}, 20, sibDesc)
 	htg := h("cont.H_TwoGroups", map[string]int{"order_schemes": 1}, map[string]int{"order_schemes": 2}, []string{"resolved"}, 20, "three registrations of ONE element type, each a member of value group g1 or g2 (symbolic) with a symbolic lifetime, so that members of different groups sit at equal positions; both groups resolved repeatedly in two scopes, directly (both orders) and through a scoped consumer with one field per group: each group holds exactly its own members in registration order, each built by its own constructor and following its own lifetime rule; constructor counts")
